@@ -41,10 +41,11 @@ func init() {
 			"(D4) announce: the metadata-event handler behind ActivateGroupContext calls SendSecret on every success path of the GroupMemberDeviceAdded branch with the MemberPk decoded from the event; activation subscribes before it starts the catch-up, sends to every member listed and registers from the listed events; SendSecret seals for exactly the member it addresses (GetShareableChainKey target = DestMemberPk = its parameter), publishes the sealed bytes under the own device key and has no success return that skips publishing. " +
 			"(D5) the set that SendSecret's 'already sent to this member' refusal reads is written only on the equal side of a comparison between the index's own DEVICE key and the DevicePk of the GroupDeviceChainKeyAdded event being indexed, keyed by that event's DestMemberPk, and is otherwise only initialised empty (an announcement by another device must never silence this device). " +
 			"(D6) in the get-or-create function behind GetShareableChainKey (the function that returns a *DeviceChainKey and both looks up and stores under the chain-key datastore namespace) every store site is dominated by a lookup made under the same write lock, held without release from the lookup to the store: the key that gets sealed is either the stored one or one registered in the critical section that found it missing. " +
+			"(D7) the store-event subscriber of the metadata store (the function that opens log entries into *GroupMetadataEvent and emits them on the event bus, which is the only way the activated group context learns of GroupMemberDeviceAdded / GroupDeviceChainKeyAdded entries): the per-entry open call lies in a loop (in that function or, for a per-entry helper, around its call sites), no path from the failing side of the open call or of an Emit leaves that loop before its next iteration (return, break; a return from a callee that contains the loop counts), and every successfully opened entry reaches the Emit of its *GroupMetadataEvent before the next iteration: one unopenable entry must not suppress the events of the entries behind it. " +
 			"Not decided: NaCl box secrecy/integrity and Ed25519->X25519 conversion correctness (trusted); that the sealed DeviceChainKey is the current one beyond D6 (C09/C10 cover the store discipline); replication and scheduling (that every device really holds every key at quiescence for all join orders and delivery plans); release of parked messages after registration (C08).",
 		Trusted:     []string{"golang.org/x/tools go/packages+go/ssa (v0.29.0)", "golang.org/x/crypto/nacl/box semantics", "libp2p crypto key types", "go/types"},
 		Assumptions: []string{"dependencies behave as documented; only module code is analysed", "interface calls to SecretStore/OwnMemberDevice resolve to the module implementations"},
-		Floors:      map[string]int{"D1": 16, "D2": 5, "D3": 5, "D4": 10, "D5": 3, "D6": 1},
+		Floors:      map[string]int{"D1": 16, "D2": 5, "D3": 5, "D4": 10, "D5": 3, "D6": 1, "D7": 4},
 		Run:         runC05,
 	})
 }
@@ -987,6 +988,7 @@ func runC05(c *Ctx) {
 	c05D4(c, tr, filters)
 	c05D5(c)
 	c05D6(c, sealEntry)
+	c05D7(c)
 }
 
 // ---------------------------------------------------------------------------
@@ -2434,5 +2436,333 @@ func c05D6(c *Ctx, sealEntry *ssa.Function) {
 	}
 	if n == 0 {
 		c.undecided("D6", fnName(sealEntry)+"+get-or-create", sealEntry.Pos(), "no function reachable from %s returns a *DeviceChainKey and both looks up and stores under namespace %s", fnName(sealEntry), c05NsChainKey)
+	}
+}
+
+// ---------------------------------------------------------------------------
+// D7: one unopenable metadata entry must not stop the emission of the others
+
+const c05KeyEmit = "(github.com/libp2p/go-libp2p/core/event.Emitter).Emit"
+
+func c05ReachesFromSuccs(from, to *ssa.BasicBlock) bool {
+	for _, s := range from.Succs {
+		if s == to || reach(s, nil)[to] {
+			return true
+		}
+	}
+	return false
+}
+
+// c05LoopOf: innermost natural loop (header, blocks) containing b, nil when b is in no loop.
+func c05LoopOf(b *ssa.BasicBlock) (*ssa.BasicBlock, map[*ssa.BasicBlock]bool) {
+	fn := b.Parent()
+	var hdr *ssa.BasicBlock
+	for _, h := range fn.Blocks {
+		if !h.Dominates(b) || !c05ReachesFromSuccs(b, h) {
+			continue
+		}
+		// a header has a back edge: a predecessor it dominates
+		back := false
+		for _, p := range h.Preds {
+			if h.Dominates(p) {
+				back = true
+			}
+		}
+		if !back {
+			continue
+		}
+		if hdr == nil || hdr.Dominates(h) {
+			hdr = h
+		}
+	}
+	if hdr == nil {
+		return nil, nil
+	}
+	blocks := map[*ssa.BasicBlock]bool{}
+	for _, x := range fn.Blocks {
+		if hdr.Dominates(x) && (x == hdr || c05ReachesFromSuccs(x, hdr)) {
+			blocks[x] = true
+		}
+	}
+	return hdr, blocks
+}
+
+// c05LeavesLoop: an instruction through which control, started on the given edges, leaves
+// the loop before reaching its header again; nil when every path reaches the next iteration.
+func c05LeavesLoop(hdr *ssa.BasicBlock, blocks map[*ssa.BasicBlock]bool, starts []edge) ssa.Instruction {
+	seen := map[*ssa.BasicBlock]bool{}
+	var stack []edge
+	stack = append(stack, starts...)
+	for len(stack) > 0 {
+		e := stack[len(stack)-1]
+		stack = stack[:len(stack)-1]
+		if !blocks[e.To] {
+			if len(e.To.Instrs) > 0 {
+				// report the exit itself when it is a return, else the branch taken
+				if r, ok := e.To.Instrs[len(e.To.Instrs)-1].(*ssa.Return); ok {
+					return r
+				}
+			}
+			if e.From != nil && len(e.From.Instrs) > 0 {
+				return e.From.Instrs[len(e.From.Instrs)-1]
+			}
+			return e.To.Instrs[0]
+		}
+		if e.To == hdr || seen[e.To] {
+			continue
+		}
+		seen[e.To] = true
+		for _, s := range e.To.Succs {
+			stack = append(stack, edge{e.To, s})
+		}
+	}
+	return nil
+}
+
+func c05D7(c *Ctx) {
+	w := c.W
+	isGME := func(t types.Type) bool {
+		_, isPtr := t.(*types.Pointer)
+		return isPtr && isNamed(t, pkgTypes, "GroupMetadataEvent")
+	}
+	isOpener := func(fn *ssa.Function) bool {
+		if fn == nil || !inModule(fn) {
+			return false
+		}
+		res := fn.Signature.Results()
+		return res.Len() >= 2 && isGME(res.At(0).Type()) && errResultIndex(fn.Signature) >= 0
+	}
+	isEmitGME := func(in ssa.Instruction) bool {
+		ci, ok := in.(*ssa.Call)
+		if !ok || calleeKey(ci.Common()) != c05KeyEmit || len(ci.Common().Args) == 0 {
+			return false
+		}
+		return isGME(stripConv(ci.Common().Args[0]).Type())
+	}
+	isEmit := func(in ssa.Instruction) bool {
+		ci, ok := in.(*ssa.Call)
+		return ok && calleeKey(ci.Common()) == c05KeyEmit
+	}
+	// helpers that emit a *GroupMetadataEvent on every path to their returns
+	emitsAlways := map[*ssa.Function]bool{}
+	for _, fn := range w.ModFuncs {
+		if fnPkg(fn) == nil || fnPkg(fn).Path() != pkgRoot || len(fn.Blocks) == 0 {
+			continue
+		}
+		has := false
+		for _, b := range fn.Blocks {
+			if c05BlockHas(b, isEmitGME) {
+				has = true
+			}
+		}
+		if !has {
+			continue
+		}
+		ok := true
+		seen := map[*ssa.BasicBlock]bool{fn.Blocks[0]: true}
+		stack := []*ssa.BasicBlock{fn.Blocks[0]}
+		for len(stack) > 0 {
+			b := stack[len(stack)-1]
+			stack = stack[:len(stack)-1]
+			if c05BlockHas(b, isEmitGME) {
+				continue
+			}
+			if len(b.Instrs) > 0 {
+				if _, isRet := b.Instrs[len(b.Instrs)-1].(*ssa.Return); isRet && b != fn.Recover {
+					ok = false
+				}
+			}
+			for _, su := range b.Succs {
+				if !seen[su] {
+					seen[su] = true
+					stack = append(stack, su)
+				}
+			}
+		}
+		if ok {
+			emitsAlways[fn] = true
+		}
+	}
+	emitBarrier := func(in ssa.Instruction) bool {
+		if isEmitGME(in) {
+			return true
+		}
+		if ci, ok := in.(*ssa.Call); ok {
+			if cal := c05CalleeOf(ci); cal != nil && emitsAlways[cal] {
+				return true
+			}
+		}
+		return false
+	}
+
+	// checkStays: the failing side of call (verdict v, may be nil = cannot fail visibly) stays
+	// in the loop around it; when the call is in no loop of its function, the loop is looked for
+	// around the module call sites of that function.
+	var checkStays func(site ssa.Instruction, starts []edge, what, cons string, depth int) (found bool)
+	checkStays = func(site ssa.Instruction, starts []edge, what, cons string, depth int) bool {
+		fn := site.Parent()
+		hdr, blocks := c05LoopOf(site.Block())
+		if hdr != nil {
+			if out := c05LeavesLoop(hdr, blocks, starts); out != nil {
+				how := "leaves the loop"
+				if _, isRet := out.(*ssa.Return); isRet {
+					how = "returns out of the loop"
+				}
+				c.fail("D7", cons, posOf(site), "a failing %s in %s %s over the store's entries at %s: the entries behind it in the batch are never emitted, so the activated group context never sees their GroupMemberDeviceAdded / GroupDeviceChainKeyAdded events (no announcement, no registration)", what, fnName(fn), how, c.pos(posOf(out)))
+			} else {
+				c.ok("D7", cons, posOf(site), "a failing %s reaches the next iteration of the loop in %s", what, fnName(fn))
+			}
+			return true
+		}
+		if depth >= 3 {
+			return false
+		}
+		// a failure the function absorbs (every return reachable from the failing side carries
+		// a nil error) is invisible to its callers and cannot stop their loop
+		if idx := errResultIndex(fn.Signature); idx >= 0 && len(starts) > 0 {
+			region := reachFromEdges(starts, nil)
+			visible := false
+			for _, r := range returnsOf(fn) {
+				if rs := retResults(r); region[r.Block()] && idx < len(rs) && !isNilConst(rs[idx]) {
+					visible = true
+				}
+			}
+			if !visible {
+				c.ok("D7", cons, posOf(site), "a failing %s is absorbed by %s (only nil-error returns follow it)", what, fnName(fn))
+				return true
+			}
+		}
+		found := false
+		for _, cs := range w.callGraph().callers[fn] {
+			in, ok := cs.Instr.(ssa.Instruction)
+			if !ok {
+				continue
+			}
+			var st []edge
+			if call, isCall := cs.Instr.(*ssa.Call); isCall {
+				if v := errVerdict(call); v != nil {
+					st = edgesOfVerdict(v).Reject
+				}
+			}
+			if checkStays(in, st, what+" (reported by "+fnName(fn)+")", cons+"<-"+fnName(cs.Caller), depth+1) {
+				found = true
+			}
+		}
+		return found
+	}
+
+	nSubs := 0
+	for _, fn := range w.ModFuncs {
+		if fnPkg(fn) == nil || fnPkg(fn).Path() != pkgRoot || len(fn.Blocks) == 0 {
+			continue
+		}
+		var opens []*ssa.Call
+		emits := false
+		for _, b := range fn.Blocks {
+			for _, in := range b.Instrs {
+				if ci, ok := in.(*ssa.Call); ok && isOpener(c05CalleeOf(ci)) {
+					opens = append(opens, ci)
+				}
+				if emitBarrier(in) {
+					emits = true
+				}
+			}
+		}
+		if len(opens) == 0 || !emits || isOpener(fn) {
+			continue
+		}
+		nSubs++
+		c.analysed(fn)
+		name := fnName(fn)
+		for _, o := range opens {
+			ev := errVerdict(o)
+			if ev == nil {
+				c.fail("D7", name+"+open-failure", posOf(o), "the error of the per-entry open call is discarded in %s: unopenable entries are emitted as events", name)
+				continue
+			}
+			ve := edgesOfVerdict(ev)
+			if !checkStays(o, ve.Reject, "open of a log entry", name+"+open-failure", 0) {
+				c.undecided("D7", name+"+open-failure", posOf(o), "no loop over the store's entries found around the per-entry open call of %s or around its call sites", name)
+			}
+			// every opened entry is emitted before the next one is looked at
+			hdr, blocks := c05LoopOf(o.Block())
+			if hdr != nil {
+				seen := map[*ssa.BasicBlock]bool{}
+				var stack []*ssa.BasicBlock
+				for _, e := range ve.Accept {
+					stack = append(stack, e.To)
+				}
+				skipped := false
+				for len(stack) > 0 {
+					b := stack[len(stack)-1]
+					stack = stack[:len(stack)-1]
+					if seen[b] || !blocks[b] {
+						continue
+					}
+					seen[b] = true
+					if b == hdr {
+						skipped = true
+						continue
+					}
+					if c05BlockHas(b, emitBarrier) {
+						continue
+					}
+					stack = append(stack, b.Succs...)
+				}
+				c.check(!skipped, "D7", name+"+emitted", posOf(o),
+					"every opened entry reaches the Emit of its *GroupMetadataEvent before the next entry",
+					"an opened entry can reach the next iteration without its *GroupMetadataEvent having been emitted (e.g. after a failed Emit of another event): the group context never sees it")
+			} else {
+				miss := c05SuccessWithout(fn, ve.Accept, emitBarrier)
+				var allRet []*ssa.Return
+				if len(miss) == 0 {
+					// functions without error result: any return counts
+					reg := reachFromEdges(ve.Accept, nil)
+					for _, r := range returnsOf(fn) {
+						if reg[r.Block()] && !c05BlockHas(r.Block(), emitBarrier) {
+							dominated := false
+							for _, b := range fn.Blocks {
+								if c05BlockHas(b, emitBarrier) && b.Dominates(r.Block()) && reg[b] {
+									dominated = true
+								}
+							}
+							if !dominated {
+								allRet = append(allRet, r)
+							}
+						}
+					}
+				}
+				c.check(len(miss) == 0 && len(allRet) == 0, "D7", name+"+emitted", posOf(o),
+					"every opened entry reaches the Emit of its *GroupMetadataEvent",
+					"an opened entry can be dropped without its *GroupMetadataEvent having been emitted: return at "+describeReturns(c, append(miss, allRet...)))
+			}
+		}
+		// Emit failures
+		for _, b := range fn.Blocks {
+			for _, in := range b.Instrs {
+				if !isEmit(in) {
+					continue
+				}
+				call := in.(*ssa.Call)
+				what := "Emit"
+				if len(call.Common().Args) > 0 {
+					if n := c05Named(stripConv(call.Common().Args[0]).Type()); n != nil {
+						what = "Emit(" + n.Obj().Name() + ")"
+					}
+				}
+				cons := name + "+" + what + "-failure"
+				ev := errVerdict(call)
+				if ev == nil {
+					c.ok("D7", cons, posOf(call), "the Emit error is not looked at: it cannot stop the loop")
+					continue
+				}
+				if !checkStays(call, edgesOfVerdict(ev).Reject, what, cons, 0) {
+					c.undecided("D7", cons, posOf(call), "no loop over the store's entries found around %s in %s or around its call sites", what, name)
+				}
+			}
+		}
+	}
+	if nSubs == 0 {
+		c.undecided("D7", "metadata store-event subscriber", token.NoPos, "no function in %s opens log entries into *GroupMetadataEvent and emits them on the event bus", pkgRoot)
 	}
 }
